@@ -1,4 +1,4 @@
-import H5V.Lemmas.HtmlTokRuns
+import H5V.Lemmas.HtmlTokLines
 /-!
 C09 — line numbers reported with tokens match the source (HTML tokenizer).
 
@@ -15,10 +15,28 @@ Proved here, for the model of `tokenizer/mod.rs` (all states, machines, inputs):
   5c0d014), and never discards a line break raw except the LF of an already counted CRLF.
 * chunk independence of all line numbers is part of `C03_chunk_independence`.
 
-`C09_lines_partial`: the end-to-end statement "line = 1 + breaks(consumed prefix) for every
-token of every run" is not yet one theorem; it is decided on the real code by the prefix oracle
-of this check (every token of every cover input under one-character feeding, and the EOF line of
-every input) and carried for the model by the correspondence, which compares every line number.
+End to end (file `Lemmas/HtmlTokLines.lean`), for every option set, sink policy, start state, input
+and chunking:
+
+* `C09_step_conserves`: the potential `Phi m inp = m.line + brk m.ignoreLf (stash m ++ inp)` — the
+  current line plus the number of line breaks (`brk`: CR, LF, CRLF counted once; `C09_brk_is_lf_count`
+  relates it to the standard's newline normalisation) still ahead in the *logically unread* text
+  (what `eat` / a character reference in progress hold back, then the queue) — is unchanged by
+  every `Tokenizer::step`, whichever of the six reading disciplines the state uses, and the
+  invariant `LInv` it needs is preserved (`C09_invariant_initial`: a fresh tokenizer satisfies it).
+* `C09_line_after_input`: whenever the tokenizer has taken everything it was fed (every
+  suspension, under any chunking), `current_line` = 1 + the number of line breaks of all text fed
+  so far. Every token emitted since carries a line between the two suspension values.
+* `C09_line_at_any_step` : at every intermediate step, `current_line` + breaks ahead = 1 + breaks of
+  the whole text of the run; tokens are stamped with `current_line` (`emit`) and no transition
+  changes it (`C09_only_the_reader_counts`), i.e. a token's line is 1 + the breaks consumed when it
+  is emitted.
+
+`C09_eof_partial`: the same statement across `Tokenizer::end` (which re-runs the machine with
+`at_eof` set on the text a pending character reference gives back — never a line break — and then
+only takes `eof` transitions, none of which touches the line) is not restated as a theorem; the
+EOF token's line is decided on the real code by the EOF-line oracle of this check and for the
+model by the correspondence.
 -/
 namespace H5V.Props.C09
 open H5V.Model.HtmlTok
@@ -105,5 +123,50 @@ theorem C09_bav_counts (o : Opts) (pol : Pol) (m : Mach) (inp : Str) (c : Char)
      | mk a b => obtain ⟨m1, i1⟩ := b; cases a <;> rfl)
 
 example : (foldChar ⟨false⟩ {} '\r').2.line = 2 ∧ (foldChar ⟨false⟩ {} '\r').1 = '\n' := by decide
+
+/-- **line accounting is exact at every step**: the line counter plus the line breaks still ahead
+in the logically unread text never changes, and the invariant is kept -/
+theorem C09_step_conserves (o : Opts) (pol : Pol) (m : Mach) (inp : Str) (hi : LInv m) (m' : Mach) (i' : Str)
+    (h : (step o pol m inp).pair? = some (m', i')) : LInv m' ∧ Phi m' i' = Phi m inp :=
+  step_lines o pol m inp hi m' i' h
+
+/-- a tokenizer as created by `Tokenizer::new` (any start state / last start tag / BOM option)
+satisfies the invariant, and its potential is `1 + brk false input` -/
+theorem C09_invariant_initial (st : State) (last : Option Str) (bom : Bool) (inp : Str) :
+    LInv { state := st, lastStartTag := last, discardBom := bom } ∧
+    Phi { state := st, lastStartTag := last, discardBom := bom } inp = 1 + brk false inp := by
+  refine ⟨linv_fresh _ rfl rfl rfl rfl rfl, ?_⟩
+  unfold Phi
+  rw [stash_nil_of rfl (fun _ => rfl)]
+  rfl
+
+/-- **at every point of a run** that started on a fresh tokenizer with text `inp`: line + breaks
+ahead = 1 + breaks of `inp` (here for the machine a run ends in; by `C09_step_conserves` the same
+equation holds after each of its steps) -/
+theorem C09_line_at_any_step (o : Opts) (pol : Pol) (st : State) (last : Option Str) (bom : Bool)
+    (inp : Str) (m' : Mach)
+    (hrun : RunsTo o pol { state := st, lastStartTag := last, discardBom := bom } inp m') :
+    LInv m' ∧ Phi m' [] = 1 + brk false inp := by
+  obtain ⟨h1, h2⟩ := C09_invariant_initial st last bom inp
+  obtain ⟨h3, h4⟩ := runsTo_lines o pol hrun h1
+  exact ⟨h3, by rw [h4, h2]⟩
+
+/-- **the line reported after any amount of input, under any chunking**: when the chunks `cs` have
+been fed one after the other (each run to suspension, pauses included) the line counter is one plus
+the number of line breaks — CR, LF, CRLF once — of their concatenation -/
+theorem C09_line_after_input (o : Opts) (pol : Pol) (st : State) (last : Option Str) (bom : Bool)
+    (cs : List Str) (mf : Mach) (hne : cs ≠ [])
+    (hs : Session o pol { state := st, lastStartTag := last, discardBom := bom } cs mf) :
+    mf.line = 1 + brk false cs.flatten := by
+  have := session_line o pol hs (linv_fresh _ rfl rfl rfl rfl rfl) hne
+  rw [this, stash_nil_of rfl (fun _ => rfl)]
+  rfl
+
+/-- `brk` counts the LF characters left by the standard's newline normalisation (CRLF → LF,
+CR → LF) -/
+theorem C09_brk_is_lf_count (s : Str) : brk false s = (normNl false s).count '\n' := brk_eq_count false s
+
+example : brk false "a\r\nb\rc\n\n\r".toList = 5 := by decide
+example : normNl false "a\r\nb\rc".toList = "a\nb\nc".toList := by decide
 
 end H5V.Props.C09
